@@ -27,6 +27,7 @@ type tailCall struct {
 
 type Frame struct {
 	cl      *Closure
+	scope   *Scope // scope at the statement being executed (for debug queries)
 	site    *last.Site
 	varargs []Value
 	ret     []Value
@@ -788,6 +789,7 @@ func (in *Interp) kind(m map[string]int, k string) { m[k]++ }
 
 func (in *Interp) execStmt(s last.Stmt, sc *Scope, fr *Frame) (ctl, *Scope) {
 	in.step()
+	fr.scope = sc
 	switch x := s.(type) {
 	case *last.SLocal:
 		in.kind(in.StmtKinds, "local")
@@ -1379,3 +1381,39 @@ func (in *Interp) RTErrorMsg(msg string) {
 func (in *Interp) CallHost(fn Value, args []Value) []Value {
 	return in.callC(fn, args...)
 }
+
+// ---- debug support (C17) ----
+
+// PosMarkerAtLevel returns the position marker of the Lua function at level (1 = running function).
+func (in *Interp) PosMarkerAtLevel(level int) string { return posMarker(in.siteAtLevel(level)) }
+
+// Local is one named local variable of an activation.
+type Local struct {
+	Name string
+	Cell *Cell
+}
+
+// FrameLocals returns the named locals in scope in the function at level, in declaration order.
+func (in *Interp) FrameLocals(level int) []Local {
+	fr := in.th.frames
+	i := len(fr) - level
+	if i < 0 || i >= len(fr) {
+		return nil
+	}
+	f := fr[i]
+	var rev []Local
+	for s := f.scope; s != nil && s != f.cl.Up; s = s.next {
+		rev = append(rev, Local{Name: s.name, Cell: s.cell})
+	}
+	out := make([]Local, 0, len(rev))
+	for k := len(rev) - 1; k >= 0; k-- {
+		out = append(out, rev[k])
+	}
+	return out
+}
+
+// ClosureFunc exposes the AST function of a closure.
+func (c *Closure) Func() *last.Func { return c.F }
+
+// Upvalue resolves name in the closure's defining scope (nil if it is a global there).
+func (c *Closure) Upvalue(name string) *Cell { return c.Up.lookup(name) }
